@@ -67,58 +67,77 @@ func settle(uuid string, names ...string) {
 
 func nodeURL(uuid, inst, path string) string { return "/api/node/" + uuid + "/" + inst + "/" + path }
 
+var repoSeq int
+
+func freshRepo(what string) string {
+	repoSeq++
+	uuid, err := dv.NewRepo(fmt.Sprintf("c11-%s-%d", what, repoSeq))
+	must(err)
+	return uuid
+}
+
 func newWorld() *world {
 	w := &world{idxNext: 1 << 40}
-	var err error
-	// --- annotation + labelmap + keyvalue
-	w.annRepo, err = dv.NewRepo("c11-ann")
-	must(err)
-	must(dv.NewInstance(w.annRepo, "labelmap", "lm", map[string]string{"BlockSize": "16,16,16"}))
-	must(dv.NewInstance(w.annRepo, "annotation", "ann", map[string]string{"BlockSize": "16,16,16"}))
-	must(dv.NewInstance(w.annRepo, "keyvalue", "kv", nil))
-	okResp(dv.Post(nodeURL(w.annRepo, "ann", "sync"), []byte(`{"sync":"lm"}`)), "sync ann")
-	// block b (x in [16b,16b+16)) is body 1000+b
-	nx := annBlocks * bs
-	buf := make([]byte, nx*bs*bs*8)
-	for z := 0; z < bs; z++ {
-		for y := 0; y < bs; y++ {
-			for x := 0; x < nx; x++ {
-				binary.LittleEndian.PutUint64(buf[((z*bs+y)*nx+x)*8:], uint64(1000+x/bs))
-			}
-		}
+	for _, f := range []string{"ann", "lm", "nj", "dag"} {
+		w.rebuild(f)
 	}
-	okResp(dv.Post(nodeURL(w.annRepo, "lm", fmt.Sprintf("raw/0_1_2/%d_%d_%d/0_0_0", nx, bs, bs)), buf), "label volume")
-	settle(w.annRepo, "lm", "ann")
-	// --- labelmap for merges: column x is body x+1 (256 voxels, one block)
-	w.lmRepo, err = dv.NewRepo("c11-lm")
-	must(err)
-	must(dv.NewInstance(w.lmRepo, "labelmap", "lm2", map[string]string{"BlockSize": "16,16,16"}))
-	buf = make([]byte, mergeCols*bs*bs*8)
-	for z := 0; z < bs; z++ {
-		for y := 0; y < bs; y++ {
-			for x := 0; x < mergeCols; x++ {
-				binary.LittleEndian.PutUint64(buf[((z*bs+y)*mergeCols+x)*8:], uint64(x+1))
-			}
-		}
-	}
-	okResp(dv.Post(nodeURL(w.lmRepo, "lm2", fmt.Sprintf("raw/0_1_2/%d_%d_%d/0_0_0", mergeCols, bs, bs)), buf), "merge volume")
-	settle(w.lmRepo, "lm2")
-	w.lm2, err = labelmap.GetByUUIDName(dvid.UUID(w.lmRepo), "lm2")
-	must(err)
-	w.lm2V, err = datastore.VersionFromUUID(dvid.UUID(w.lmRepo))
-	must(err)
-	// --- neuronjson
-	w.njRepo, err = dv.NewRepo("c11-nj")
-	must(err)
-	must(dv.NewInstance(w.njRepo, "neuronjson", "nj", nil))
-	w.njHead = w.njRepo
-	w.njNext = 100
-	// --- version DAG
-	w.dagRepo, err = dv.NewRepo("c11-dag")
-	must(err)
-	okResp(dv.Commit(w.dagRepo), "commit root")
-	w.dagP = w.dagRepo
 	return w
+}
+
+// rebuild gives one family of sites a fresh repo (at start, and after a deadlock has left
+// goroutines blocked on the old repo's mutexes).
+func (w *world) rebuild(family string) {
+	var err error
+	switch family {
+	case "ann": // annotation + labelmap + keyvalue
+		w.annRepo = freshRepo("ann")
+		w.annNext = 0
+		must(dv.NewInstance(w.annRepo, "labelmap", "lm", map[string]string{"BlockSize": "16,16,16"}))
+		must(dv.NewInstance(w.annRepo, "annotation", "ann", map[string]string{"BlockSize": "16,16,16"}))
+		must(dv.NewInstance(w.annRepo, "keyvalue", "kv", nil))
+		okResp(dv.Post(nodeURL(w.annRepo, "ann", "sync"), []byte(`{"sync":"lm"}`)), "sync ann")
+		// block b (x in [16b,16b+16)) is body 1000+b
+		nx := annBlocks * bs
+		buf := make([]byte, nx*bs*bs*8)
+		for z := 0; z < bs; z++ {
+			for y := 0; y < bs; y++ {
+				for x := 0; x < nx; x++ {
+					binary.LittleEndian.PutUint64(buf[((z*bs+y)*nx+x)*8:], uint64(1000+x/bs))
+				}
+			}
+		}
+		okResp(dv.Post(nodeURL(w.annRepo, "lm", fmt.Sprintf("raw/0_1_2/%d_%d_%d/0_0_0", nx, bs, bs)), buf), "label volume")
+		settle(w.annRepo, "lm", "ann")
+	case "lm": // labelmap for merges: column x is body x+1 (256 voxels, one block)
+		w.lmRepo = freshRepo("lm")
+		w.lmNext = 0
+		must(dv.NewInstance(w.lmRepo, "labelmap", "lm2", map[string]string{"BlockSize": "16,16,16"}))
+		buf := make([]byte, mergeCols*bs*bs*8)
+		for z := 0; z < bs; z++ {
+			for y := 0; y < bs; y++ {
+				for x := 0; x < mergeCols; x++ {
+					binary.LittleEndian.PutUint64(buf[((z*bs+y)*mergeCols+x)*8:], uint64(x+1))
+				}
+			}
+		}
+		okResp(dv.Post(nodeURL(w.lmRepo, "lm2", fmt.Sprintf("raw/0_1_2/%d_%d_%d/0_0_0", mergeCols, bs, bs)), buf), "merge volume")
+		settle(w.lmRepo, "lm2")
+		w.lm2, err = labelmap.GetByUUIDName(dvid.UUID(w.lmRepo), "lm2")
+		must(err)
+		w.lm2V, err = datastore.VersionFromUUID(dvid.UUID(w.lmRepo))
+		must(err)
+	case "nj":
+		w.njRepo = freshRepo("nj")
+		must(dv.NewInstance(w.njRepo, "neuronjson", "nj", nil))
+		w.njHead = w.njRepo
+		w.njNext = 100
+	case "dag":
+		w.dagRepo = freshRepo("dag")
+		okResp(dv.Commit(w.dagRepo), "commit root")
+		w.dagP = w.dagRepo
+	default:
+		fatal("unknown family %q", family)
+	}
 }
 
 // ------------------------------------------------------------------ keyvalue
@@ -721,20 +740,87 @@ func dagPrepare(branch bool) func(w *world, n int) prepared {
 	}
 }
 
+// forced schedules at yield points outside the sites' models (liveness)
+func livePrepare(w *world, s *siteDef, yield string) prepared {
+	parent := w.dagP
+	ep := w.dagNext
+	w.dagNext++
+	var p prepared
+	var childA, childB string
+	p.desc = append(p.desc, fmt.Sprintf("1: POST node/%s/newversion", parent[:8]))
+	p.reqs = append(p.reqs, func() bool {
+		c, r := dv.NewVersion(parent)
+		childA = c
+		return r.Status == 200
+	})
+	switch yield {
+	case "datastore.saveToStore.rlocked":
+		// request 2 needs the repo's write lock (r.Lock in newVersion) while request 1 is inside
+		// saveToStore holding r.RLock and about to take it again in repoT.GobEncode
+		p.desc = append(p.desc, fmt.Sprintf(`2: POST node/%s/branch {"branch":"live%d"}`, parent[:8], ep))
+		p.reqs = append(p.reqs, func() bool {
+			c, r := dv.Branch(parent, fmt.Sprintf("live%d", ep))
+			childB = c
+			return r.Status == 200
+		})
+	case "datastore.newVersion.append":
+		// request 2 (a merge naming the parent) needs the node's write lock while request 1 holds
+		// node.RLock (deferred) and will take it again in nodeT.GobEncode when it saves the repo
+		q, r := dv.Branch(parent, fmt.Sprintf("q%d", ep))
+		okResp(r, "live: side branch")
+		okResp(dv.Commit(q), "live: commit side branch")
+		p.desc = append(p.desc, fmt.Sprintf(`2: POST repo/%s/merge {"parents":[%s,%s]} (%s = committed child of %s on branch q%d)`, parent[:8], parent[:8], q[:8], q[:8], parent[:8], ep))
+		p.reqs = append(p.reqs, func() bool {
+			_, r := dv.Merge([]string{parent, q})
+			debugf("live merge: %d %s", r.Status, r.Body)
+			return r.Status == 200
+		})
+	default:
+		fatal("no live episode for yield point %s", yield)
+	}
+	p.observe = func(acked []int) ([]view, int) {
+		nodes := dagNodes(w.dagRepo)
+		pn := nodes[parent]
+		var ids []int
+		if c, ok := nodes[childA]; childA != "" && ok && c.Branch == pn.Branch {
+			ids = append(ids, 1)
+		}
+		extra := 0
+		if childB != "" {
+			if c, ok := nodes[childB]; !ok || c.Branch != fmt.Sprintf("live%d", ep) {
+				extra = 3
+			}
+		}
+		for _, c := range nodes {
+			if !c.Locked && len(c.Parents) == 1 && c.Parents[0] == pn.VersionID {
+				okResp(dv.Commit(c.UUID), "commit child")
+			}
+		}
+		if childA == "" {
+			fatal("live episode: newversion failed")
+		}
+		w.dagP = childA
+		return []view{{"children", ids}}, extra
+	}
+	return p
+}
+
 // ------------------------------------------------------------------ table
 
 func allSites() []siteDef {
 	return []siteDef{
-		{name: "keyvalue.PutData", prepare: kvPrepare(false), stressN: [2]int{8, 12}, rounds: [2]int{12, 80}},
-		{name: "keyvalue.DeleteData", prepare: kvPrepare(true), stressN: [2]int{8, 12}, rounds: [2]int{8, 60}},
-		{name: "annotation.StoreElements", yields: []string{"annotation.StoreElements.commit"}, prepare: annStorePrepare, stressN: [2]int{6, 10}, rounds: [2]int{8, 20}},
-		{name: "annotation.DeleteElement", yields: []string{"annotation.DeleteElement.block", "annotation.DeleteElement.commit"}, prepare: annDeletePrepare, stressN: [2]int{6, 10}, rounds: [2]int{8, 20}},
-		{name: "annotation.MoveElement", yields: []string{"annotation.MoveElement.block", "annotation.MoveElement.commit"}, prepare: annMovePrepare, stressN: [2]int{6, 10}, rounds: [2]int{8, 20}},
-		{name: "labelmap.MergeLabels", yields: []string{"labelmap.MergeLabels.target"}, prepare: lmMergePrepare, stressN: [2]int{5, 8}, rounds: [2]int{8, 40}},
-		{name: "labelmap.CleaveLabel", yields: []string{"labelmap.cleaveIndex.read"}, prepare: lmCleavePrepare, stressN: [2]int{5, 8}, rounds: [2]int{8, 40}},
-		{name: "labelmap.ChangeLabelIndex", yields: []string{"labelmap.ChangeLabelIndex.read"}, prepare: lmChangeIndexPrepare, stressN: [2]int{8, 12}, rounds: [2]int{10, 80}},
-		{name: "neuronjson.storeAndUpdate", yields: []string{"neuronjson.storeAndUpdate.read", "neuronjson.storeAndUpdate.store"}, prepare: njPrepare, stressN: [2]int{6, 10}, rounds: [2]int{8, 40}},
-		{name: "datastore.newVersion", yields: []string{"datastore.newVersion.append"}, prepare: dagPrepare(false), stressN: [2]int{6, 10}, rounds: [2]int{10, 40}},
-		{name: "datastore.newVersion", variant: "branch", prepare: dagPrepare(true), stressN: [2]int{6, 10}, rounds: [2]int{6, 30}},
+		{name: "keyvalue.PutData", family: "ann", prepare: kvPrepare(false), stressN: [2]int{8, 12}, rounds: [2]int{12, 80}},
+		{name: "keyvalue.DeleteData", family: "ann", prepare: kvPrepare(true), stressN: [2]int{8, 12}, rounds: [2]int{8, 60}},
+		{name: "annotation.StoreElements", family: "ann", yields: []string{"annotation.StoreElements.commit"}, prepare: annStorePrepare, stressN: [2]int{6, 10}, rounds: [2]int{8, 20}},
+		{name: "annotation.DeleteElement", family: "ann", yields: []string{"annotation.DeleteElement.block", "annotation.DeleteElement.commit"}, prepare: annDeletePrepare, stressN: [2]int{6, 10}, rounds: [2]int{8, 20}},
+		{name: "annotation.MoveElement", family: "ann", yields: []string{"annotation.MoveElement.block", "annotation.MoveElement.commit"}, prepare: annMovePrepare, stressN: [2]int{6, 10}, rounds: [2]int{8, 20}},
+		{name: "labelmap.MergeLabels", family: "lm", yields: []string{"labelmap.MergeLabels.target"}, prepare: lmMergePrepare, stressN: [2]int{5, 8}, rounds: [2]int{8, 40}},
+		{name: "labelmap.CleaveLabel", family: "lm", yields: []string{"labelmap.cleaveIndex.read"}, prepare: lmCleavePrepare, stressN: [2]int{5, 8}, rounds: [2]int{8, 40}},
+		{name: "labelmap.ChangeLabelIndex", family: "lm", yields: []string{"labelmap.ChangeLabelIndex.read"}, prepare: lmChangeIndexPrepare, stressN: [2]int{8, 12}, rounds: [2]int{10, 80}},
+		{name: "neuronjson.storeAndUpdate", family: "nj", yields: []string{"neuronjson.storeAndUpdate.read", "neuronjson.storeAndUpdate.store"}, prepare: njPrepare, stressN: [2]int{6, 10}, rounds: [2]int{8, 40}},
+		{name: "datastore.newVersion", family: "dag", yields: []string{"datastore.newVersion.append"},
+			live:    []string{"datastore.saveToStore.rlocked", "datastore.newVersion.append"},
+			prepare: dagPrepare(false), stressN: [2]int{6, 10}, rounds: [2]int{10, 40}},
+		{name: "datastore.newVersion", variant: "branch", family: "dag", prepare: dagPrepare(true), stressN: [2]int{6, 10}, rounds: [2]int{6, 30}},
 	}
 }
